@@ -241,7 +241,12 @@ class Run:
         for r in viol:
             k = match_known(known, r["name"])
             (known_hits if k else new_viol).append((r, k))
-        os.makedirs(os.path.join(ROOT, "replays", pid), exist_ok=True)
+        rdir = os.path.join(ROOT, "replays", pid)
+        os.makedirs(rdir, exist_ok=True)
+        if not self.only:
+            for old in os.listdir(rdir):        # a full run replaces the replay files of earlier runs
+                if old.endswith(".json"):
+                    os.unlink(os.path.join(rdir, old))
         lines = []
         for r, k in known_hits:
             lines.append(f"KNOWN-FINDING: property={pid} {k['what']} [{r['name']}]")
